@@ -177,6 +177,26 @@ class wall_guard:
     def __exit__(self, *a):
         if self.active:
             import signal
+            import time
             signal.setitimer(signal.ITIMER_REAL, 0)
             signal.signal(signal.SIGALRM, self.old)
+            if _OUTER['deadline'] is not None:
+                signal.setitimer(signal.ITIMER_REAL, max(0.05, _OUTER['deadline'] - time.monotonic()))
         return False
+
+
+_OUTER = {'deadline': None}
+
+
+def set_outer_deadline(seconds):
+    """Process-level watchdog for a forked run: SIGALRM with its default action (terminate) after ``seconds``.
+
+    Works even while the interpreter is stuck inside C code holding the GIL.  ``wall_guard`` shares the
+    timer and re-arms the remaining time when it exits.
+    """
+
+    import signal
+    import time
+    _OUTER['deadline'] = time.monotonic() + seconds
+    signal.signal(signal.SIGALRM, signal.SIG_DFL)
+    signal.setitimer(signal.ITIMER_REAL, seconds)
